@@ -1,6 +1,6 @@
 """C18 — Results ignore input row order, and order_rows orders and limits."""
 from .. import oracles
-from ..propkit import with_oracle
+from ..propkit import OracleOnly, with_oracle
 from ..suites_ops import K4Sem
 
 PROPERTY = "C18"
@@ -18,7 +18,7 @@ ASSUMPTIONS = [
     "SQL and Polars backends: the theorem is about the executor model; their row-order independence is the oracle's "
     "metamorphic check (and C01/C03 relate them to the executor model)",
 ]
-NOT_PROVEN = ["re-indexing of input frames (oracle only)", "SQLite / Polars executions (oracle only; see C01, C03)"]
+NOT_PROVEN = ["convert_records steps (Θ.convert is abstract in the theorem: oracle only, suite c18_records)", "re-indexing of input frames (oracle only)", "SQLite / Polars executions (oracle only; see C01, C03)"]
 LEVEL_TEXT = ("Kernel-checked for every pipeline, interpretation and environment: permuting the rows of the inputs "
               "permutes the result (per-operator lemmas for every node kind incl. joins, grouped projects, ordered and "
               "unordered windows, order_rows with and without limit) under exactly the property's scope hypothesis "
@@ -34,4 +34,7 @@ RULE = ("random type-directed pipelines (pipes.gen_case, total window orders, fi
         "permutation / re-indexing metamorphic test on every backend, sortedness and limit prefix); non-trivial = the "
         "pipeline evaluates to at least one row")
 
-SUITES = [with_oracle(K4Sem, oracles.oracle_C18, every=2, final_order=0.45)]
+SUITES = [with_oracle(K4Sem, oracles.oracle_C18, every=2, final_order=0.45),
+          # record transforms are outside the executor model (Θ.convert is abstract): their row-order independence is
+          # judged by the oracle alone, on pipelines biased towards convert_records
+          with_oracle(OracleOnly, oracles.oracle_C18, name="c18_records", convert_records=6.0)]
